@@ -282,17 +282,15 @@ Section Variant.
       { intros pn p Hpw Hw1. rewrite OUT_text. unfold s at 2. rewrite (text_out_nf L pn lead k trail (hd_error r) Hk). fold s.
         cbn [map seen app]. rewrite Nv_cons_text. fold (OUT L cl (Some (Text s)) r). rewrite Eo.
         rewrite (ctext_txt _ q r' Hst).
-        set (pre := if (has_ind ind && legit_before pn (Text s))%bool then indent ind L else optsp lead) in *.
-        set (suf := if legit_after (Text s) (hd_error r) then NL else optsp trail).
-        assert (Hne : null ((pre ++ k ++ suf) ++ q) = false).
-        { apply null_mid. exact Hh. }
-        rewrite (txt_nonnull _ Hne). cbn [app ctext].
-        replace (p ++ (pre ++ k ++ suf) ++ q) with ((p ++ pre) ++ k ++ (suf ++ q)) by (rewrite <- !app_assoc; reflexivity).
-        apply wv_X; try assumption.
-        - apply inner_variant_refl. exact Hk.
-        - apply all_ws_app; [exact Hpw|]. unfold pre. destruct (has_ind ind && legit_before pn (Text s))%bool; [apply all_ws_indent|apply all_ws_optsp].
-        - apply all_ws_app; [|exact Hq]. unfold suf. destruct (legit_after (Text s) (hd_error r)); [apply all_ws_NL|apply all_ws_optsp].
-        - intros Hrn. unfold suf. destruct r as [|y r0]; [congruence|]. cbn [hd_error legit_after]. rewrite Ee.
+        rewrite txt_nonnull by (apply null_mid; exact Hh). cbn [app ctext]. rewrite <- !app_assoc.
+        rewrite (app_assoc p).
+        apply (wv_X prev lead trail k k
+                 (p ++ (if (has_ind ind && legit_before pn (Text s))%bool then indent ind L else optsp lead))
+                 ((if legit_after (Text s) (hd_error r) then NL else optsp trail) ++ q));
+          [exact Hk|apply inner_variant_refl; exact Hk|exact Hp|exact Hl|exact Ht| | |exact Hw1| |exact Hwv].
+        - apply all_ws_app; [exact Hpw|]. destruct (has_ind ind && legit_before pn (Text s))%bool; [apply all_ws_indent|apply all_ws_optsp].
+        - apply all_ws_app; [|exact Hq]. destruct (legit_after (Text s) (hd_error r)); [apply all_ws_NL|apply all_ws_optsp].
+        - intros Hrn. destruct r as [|y r0]; [congruence|]. cbn [hd_error legit_after]. rewrite Ee.
           destruct trail; cbn [negb optsp app]; [reflexivity|].
           destruct (null q) eqn:Enq; [reflexivity|]. rewrite (Hqs Hrn eq_refl) in Ee. discriminate. }
       destruct prev.
